@@ -148,12 +148,12 @@ PLAN = {
         "standins": [{"file": "standins/binds.py", "name": "bind string parsing (Config._create_sockets)", "label": "BOUNDED stand-in, not counted as proved"}],
         "trusted_base": ["argparse: the real parser object is built natively by main(); parse_args() is replaced by a namespace in which every option is either absent (its default) or given with an arbitrary value of its type",
                          "the option table of docs/how_to_guides/configuring.rst as oracle for which flag configures which setting"],
-        "assumptions": ["the loaders (from_mapping / from_object / from_pyfile / from_toml: setattr over arbitrary keys, importlib, tomllib) are not under contract; that they funnel into one setattr loop is by inspection only; what is proved about them is the route and the exact name _load_config hands over",
+        "assumptions": ["the loaders (from_mapping / from_object / from_pyfile / from_toml: setattr over arbitrary keys, dir(), importlib, tomllib) are not under contract: that every source gives the same configuration is decided by the bounded stand-in standins/loaders.py only; what is proved about them is the route and the exact name _load_config hands over",
                         "deprecated aliases not in the documentation table (--access-log, --error-log, --cert-reqs) are assumed absent",
                         "format_date_time returns a well-formed RFC 7231 date"],
         "explanation": "command line: one obligation per configuration setting -- after main() the setting equals the flag's value if its flag was given and the loaded configuration's value otherwise -- proved for all 2^35 combinations of flags and all values; setters; response headers; bind strings by bounded enumeration",
         "level_text": "54 per-setting postconditions of main() proved for every combination of options (conditional assignments are merged, not enumerated); response_headers and the property setters proved for all inputs. Bind-string parsing is a labelled bounded stand-in.",
-        "level_note": "Trusted: pyvc encoder; argparse semantics for parsing itself; docs table as oracle. Bounded (not proof): bind strings.",
+        "level_note": "Trusted: pyvc encoder; argparse semantics for parsing itself; docs table as oracle. Bounded (not proof): bind strings; agreement of the configuration loaders (mapping / keyword / object / module / Python file / TOML).",
     },
     "C08": {
         "units": [SB + m for m in ("__init__", "push", "pop", "drain", "set_complete", "close", "complete")] + [HP + m for m in ("_window_updated", "_send_data", "stream_send", "handle", "send_task")],
@@ -328,3 +328,7 @@ PLAN["C01"]["trusted_base"] = PLAN["C01"]["trusted_base"] + LIB_H11
 # C05 "the connection's other streams ... keep working": data that arrives for a stream whose
 # application has failed is still acknowledged, or the connection's receive window runs dry
 PLAN["C05"]["units"] = PLAN["C05"]["units"] + [HP + "_handle_events"]
+# C19 "a setting has the same effect whichever way it is supplied": the loaders' bodies are outside
+# the VC generator; a bounded native enumeration compares every source, labelled as such
+PLAN["C19"]["standins"] = PLAN["C19"]["standins"] + [{"file": "standins/loaders.py", "name": "configuration loaders (Config.from_mapping / from_object / from_pyfile / from_toml, _load_config routes)",
+                                                      "label": "BOUNDED stand-in, not counted as proved"}]
